@@ -314,15 +314,64 @@ func init() {
 		l.p("/-- `unmarshalLogEvent` and `wpIterator.init` decode every string through `unmarshalString`, which rejects a length prefix larger than the bytes left before calling `xbinary.UnmarshalString` -/")
 		l.p("def rpcStringsLengthGuarded : Bool := %s", leanBool(guardedAll))
 		// --- does wpIterator.init validate every announced event (decode + parse of its fields text) before returning? ---
-		validates := false
-		if fd := funcDecl(fi, "wpIterator", "init"); fd != nil {
+		// The loop may live in init itself or in a same-package helper it calls (followed to depth 2, e.g. validateEvents).
+		rpcFuncs := map[string]*ast.FuncDecl{}
+		for _, ff := range []*ast.File{fi, fe} {
+			if ff == nil {
+				continue
+			}
+			for _, d := range ff.Decls {
+				if fd, ok := d.(*ast.FuncDecl); ok && fd.Body != nil {
+					rpcFuncs[fd.Name.Name] = fd
+				}
+			}
+		}
+		var reachable func(fd *ast.FuncDecl, depth int, seen map[string]bool) []*ast.FuncDecl
+		reachable = func(fd *ast.FuncDecl, depth int, seen map[string]bool) []*ast.FuncDecl {
+			if fd == nil || seen[fd.Name.Name] {
+				return nil
+			}
+			seen[fd.Name.Name] = true
+			out := []*ast.FuncDecl{fd}
+			if depth == 0 {
+				return out
+			}
 			ast.Inspect(fd.Body, func(n ast.Node) bool {
-				fs, ok := n.(*ast.ForStmt)
-				if !ok {
+				if ce, ok := n.(*ast.CallExpr); ok {
+					name := ""
+					switch f := ce.Fun.(type) {
+					case *ast.Ident:
+						name = f.Name
+					case *ast.SelectorExpr:
+						name = f.Sel.Name
+					}
+					if g, ok := rpcFuncs[name]; ok && name != "unmarshalLogEvent" && name != "unmarshalString" {
+						out = append(out, reachable(g, depth-1, seen)...)
+					}
+				}
+				return true
+			})
+			return out
+		}
+		validates := false
+		initFd := funcDecl(fi, "wpIterator", "init")
+		if initFd == nil {
+			problem("wpIterator.init not found")
+		}
+		for _, fd := range reachable(initFd, 2, map[string]bool{}) {
+			ast.Inspect(fd.Body, func(n ast.Node) bool {
+				var body *ast.BlockStmt
+				switch x := n.(type) {
+				case *ast.ForStmt:
+					body = x.Body
+				case *ast.RangeStmt:
+					body = x.Body
+				}
+				if body == nil {
 					return true
 				}
 				dec, prs := false, false
-				ast.Inspect(fs.Body, func(m ast.Node) bool {
+				ast.Inspect(body, func(m ast.Node) bool {
 					if ce, ok := m.(*ast.CallExpr); ok {
 						switch f := ce.Fun.(type) {
 						case *ast.Ident:
@@ -343,6 +392,48 @@ func init() {
 				return true
 			})
 		}
+		// --- does the validation also reject an event whose record would exceed the maximum record size? (proposed repair of F20a)
+		// structural: somewhere in init or its helpers a `<x>.WritableSize()` result is compared with `>` / `<`
+		checksSize := false
+		for _, fd := range reachable(initFd, 2, map[string]bool{}) {
+			sizeVars := map[string]bool{}
+			hasWS := func(e ast.Node) bool {
+				f := false
+				ast.Inspect(e, func(m ast.Node) bool {
+					switch x := m.(type) {
+					case *ast.CallExpr:
+						if se, ok := x.Fun.(*ast.SelectorExpr); ok && se.Sel.Name == "WritableSize" {
+							f = true
+						}
+					case *ast.Ident:
+						if sizeVars[x.Name] {
+							f = true
+						}
+					}
+					return true
+				})
+				return f
+			}
+			ast.Inspect(fd.Body, func(n ast.Node) bool {
+				switch x := n.(type) {
+				case *ast.AssignStmt:
+					for i, r := range x.Rhs {
+						if hasWS(r) && i < len(x.Lhs) {
+							if id, ok := x.Lhs[i].(*ast.Ident); ok {
+								sizeVars[id.Name] = true
+							}
+						}
+					}
+				case *ast.BinaryExpr:
+					if (x.Op == token.GTR || x.Op == token.LSS || x.Op == token.GEQ || x.Op == token.LEQ) && (hasWS(x.X) || hasWS(x.Y)) {
+						checksSize = true
+					}
+				}
+				return true
+			})
+		}
+		l.p("/-- the validation pass of `wpIterator.init` also compares every event's `WritableSize()` with a limit (the chunk reader's maximum record size) and rejects the packet when it is exceeded -/")
+		l.p("def ingestorChecksRecordSize : Bool := %s", leanBool(checksSize))
 		l.p("/-- `wpIterator.init` decodes every announced event and parses its fields text, and fails if any of that fails (proposed repair of F20b/F20c) -/")
 		l.p("def wpInitValidatesEvents : Bool := %s", leanBool(validates))
 		// --- lifetime of pooled buffers in api/rpc: no use of a buffer after it went back to the pool (statement order) ------
@@ -468,55 +559,125 @@ func init() {
 		// --- Service.Write: which guard decides that a failing jrnl.Write iteration is reported? --------------------
 		// `if err1 != nil { if n <= 0 { err = … }; break }` — journal.Write returns n == 0 whenever it returns an error, so with
 		// this guard EVERY failing iteration is reported, also one after the head of the batch went into an earlier chunk
+		// Identified by STRUCTURE, not by names: inside the loop, `N, P, E := <journal>.Write(ctx, <iterator>)`; the flag is the bool
+		// variable assigned `true` inside `if N > 0 { … }`; the error branch is the `if E != nil { … break/return }`; its guard is a
+		// comparison of N with 0 (every failing iteration reported), a test of the flag (only a failure before the first successful
+		// iteration reported), or absent (unconditional). Anything else is reported as a problem, never guessed.
 		guardNLe0, guardNotWeInit, guardSeen := false, false, false
 		if fd := funcDecl(fp, "Service", "Write"); fd != nil {
+			nVar, eVar, flagVar := "", "", ""
+			var loop *ast.ForStmt
 			ast.Inspect(fd.Body, func(n ast.Node) bool {
-				ifs, ok := n.(*ast.IfStmt)
-				if !ok {
+				fs, ok := n.(*ast.ForStmt)
+				if !ok || loop != nil {
 					return true
 				}
-				be, ok := ifs.Cond.(*ast.BinaryExpr)
-				if !ok || be.Op != token.NEQ {
-					return true
-				}
-				if id, ok := be.X.(*ast.Ident); !ok || id.Name != "err1" {
-					return true
-				}
-				hasBreak := false
-				for _, st := range ifs.Body.List {
-					if bs, ok := st.(*ast.BranchStmt); ok && bs.Tok == token.BREAK {
-						hasBreak = true
+				ast.Inspect(fs.Body, func(m ast.Node) bool {
+					as, ok := m.(*ast.AssignStmt)
+					if !ok || len(as.Lhs) != 3 || len(as.Rhs) != 1 {
+						return true
 					}
-				}
-				if !hasBreak || len(ifs.Body.List) == 0 {
-					return true
-				}
-				guardSeen = true
-				switch first := ifs.Body.List[0].(type) {
-				case *ast.IfStmt:
-					switch c := first.Cond.(type) {
-					case *ast.BinaryExpr:
-						if id, ok := c.X.(*ast.Ident); ok && id.Name == "n" && c.Op == token.LEQ {
-							if v, ok := intLit(c.Y); ok && v == 0 {
-								guardNLe0 = true
+					ce, ok := as.Rhs[0].(*ast.CallExpr)
+					if !ok {
+						return true
+					}
+					if se, ok := ce.Fun.(*ast.SelectorExpr); ok && se.Sel.Name == "Write" {
+						if a, ok := as.Lhs[0].(*ast.Ident); ok {
+							if c, ok := as.Lhs[2].(*ast.Ident); ok {
+								nVar, eVar, loop = a.Name, c.Name, fs
 							}
 						}
-					case *ast.UnaryExpr:
-						if id, ok := c.X.(*ast.Ident); ok && c.Op == token.NOT && id.Name == "weInit" {
-							guardNotWeInit = true
-						}
 					}
-				case *ast.AssignStmt:
-					// unconditional `err = …` reports every failing iteration as well
-					if id, ok := first.Lhs[0].(*ast.Ident); ok && id.Name == "err" {
+					return true
+				})
+				return true
+			})
+			isIdent := func(e ast.Expr, name string) bool {
+				id, ok := e.(*ast.Ident)
+				return ok && name != "" && id.Name == name
+			}
+			if loop != nil {
+				// the flag: assigned `true` under `if N > 0`
+				ast.Inspect(loop.Body, func(n ast.Node) bool {
+					ifs, ok := n.(*ast.IfStmt)
+					if !ok {
+						return true
+					}
+					be, ok := ifs.Cond.(*ast.BinaryExpr)
+					if !ok || !isIdent(be.X, nVar) || be.Op != token.GTR {
+						return true
+					}
+					ast.Inspect(ifs.Body, func(m ast.Node) bool {
+						if as, ok := m.(*ast.AssignStmt); ok && len(as.Lhs) == 1 && len(as.Rhs) == 1 {
+							if id, ok := as.Rhs[0].(*ast.Ident); ok && id.Name == "true" {
+								if l0, ok := as.Lhs[0].(*ast.Ident); ok {
+									flagVar = l0.Name
+								}
+							}
+						}
+						return true
+					})
+					return true
+				})
+				mentions := func(e ast.Node, name string) bool {
+					f := false
+					ast.Inspect(e, func(m ast.Node) bool {
+						if id, ok := m.(*ast.Ident); ok && name != "" && id.Name == name {
+							f = true
+						}
+						return true
+					})
+					return f
+				}
+				classify := func(cond ast.Expr) {
+					switch {
+					case mentions(cond, nVar) && !mentions(cond, flagVar):
+						// N <= 0, N == 0, N < 1, !(N > 0) …: with the library contract (n = 0 whenever an error is returned) all of them hold
 						guardNLe0 = true
+					case mentions(cond, flagVar) && !mentions(cond, nVar):
+						guardNotWeInit = true
 					}
 				}
-				return false
-			})
+				ast.Inspect(loop.Body, func(n ast.Node) bool {
+					ifs, ok := n.(*ast.IfStmt)
+					if !ok || guardSeen {
+						return true
+					}
+					be, ok := ifs.Cond.(*ast.BinaryExpr)
+					if !ok || be.Op != token.NEQ || !isIdent(be.X, eVar) {
+						return true
+					}
+					leaves := false
+					for _, st := range ifs.Body.List {
+						switch b := st.(type) {
+						case *ast.BranchStmt:
+							leaves = leaves || b.Tok == token.BREAK
+						case *ast.ReturnStmt:
+							leaves = true
+						}
+					}
+					if !leaves || len(ifs.Body.List) == 0 {
+						return true
+					}
+					guardSeen = true
+					switch first := ifs.Body.List[0].(type) {
+					case *ast.IfStmt:
+						classify(first.Cond)
+					case *ast.SwitchStmt:
+						if first.Tag == nil && len(first.Body.List) > 0 {
+							if cc, ok := first.Body.List[0].(*ast.CaseClause); ok && len(cc.List) == 1 {
+								classify(cc.List[0])
+							}
+						}
+					case *ast.AssignStmt, *ast.ReturnStmt:
+						guardNLe0 = true // reported unconditionally
+					}
+					return false
+				})
+			}
 		}
-		if !guardSeen || (!guardNLe0 && !guardNotWeInit) {
-			problem("Service.Write: the `if err1 != nil { if <guard> { err = … }; break }` shape was not recognised (guard n <= 0 / !weInit / none)")
+		if !guardSeen || guardNLe0 == guardNotWeInit {
+			problem("Service.Write: the error branch of the write loop (`if <err of journal.Write> != nil { <guard> { err = … }; break }`) or its guard was not recognised")
 		}
 		l.p("/-- in `Service.Write` a failing `jrnl.Write` iteration sets the returned error under the guard `n <= 0` (or unconditionally); false: under `!weInit`, which drops an error that follows a partial write -/")
 		l.p("def writeErrGuardIsNLeZero : Bool := %s", leanBool(guardNLe0))
